@@ -30,7 +30,7 @@ def parseHdrs (s : String) : Option (List (String × Option Bytes)) :=
   (s.splitOn ";").mapM fun kv =>
     match kv.splitOn "~" with
     | [k, v] => do
-      let kb ← fromHex k
+      let kb ← (← parseBytes k)
       let vb ← parseBytes v
       pure (String.fromUTF8! (ByteArray.mk kb.toArray), vb)
     | _ => none
